@@ -814,7 +814,18 @@ func main() {
 	if err := os.MkdirAll(filepath.Dir(outPath), 0o755); err != nil {
 		fail("%v", err)
 	}
-	if err := os.WriteFile(outPath, []byte(sb.String()), 0o644); err != nil {
-		fail("%v", err)
+	// several checks regenerate the same file, possibly at the same time: leave an identical file untouched (no
+	// rebuild of its importers) and replace a different one atomically
+	if old, err := os.ReadFile(outPath); err == nil && string(old) == sb.String() {
+		return
+	}
+	tmp := fmt.Sprintf("%s.tmp%d", outPath, os.Getpid())
+	if err := os.WriteFile(tmp, []byte(sb.String()), 0o644); err != nil {
+		fmt.Fprintln(os.Stderr, "gen:", err)
+		os.Exit(2)
+	}
+	if err := os.Rename(tmp, outPath); err != nil {
+		fmt.Fprintln(os.Stderr, "gen:", err)
+		os.Exit(2)
 	}
 }
